@@ -80,19 +80,40 @@ def judge(chk, res, tier, seed, replaying=False):
         "holding": len(rows) - len(failing) - sum(skipped.values()),
         "C04_modify_preserves": {"modify_actions_on_existing_columns": st.get("modify_actions"), "under_its_hypothesis": st.get("modify_under_hypothesis"),
                                  "on_auto_increment_columns": st.get("modify_on_autoinc_column")},
-        "outside_every_known_class": {"judged_migrations": st.get("outside_known_classes"), "holding": st.get("outside_and_holding")},
+        "C04_modify_restates_all": {"modify_actions_on_existing_columns": st.get("modify_all_total"),
+                                    "before(three attributes, C04_modify_preserves)": st.get("modify_under_hypothesis"),
+                                    "after(all six attributes at once)": st.get("modify_under_restates_all"),
+                                    "excluded_on_auto_increment_columns": st.get("modify_on_autoinc_column"),
+                                    "excluded_comment_lost(C04-comment-lost-on-modify)": st.get("modify_comment_lost"),
+                                    "of_which_MODIFY_without_COMMENT_in_the_implementation_sql": st.get("modify_comment_lost_confirmed_on_impl_sql")},
+        "outside_every_known_class": {"judged_migrations": st.get("outside_known_classes"), "holding": st.get("outside_and_holding"),
+                                      "proved_as_a_whole_by_a_plan_level_theorem": {"before_round5": st.get("outside_whole_proved_r3"), "after": st.get("outside_whole_proved_now")}},
         "sim_mysql_lemmas": {"actions_in_judged_migrations": st.get("actions_in_judged_migrations"),
                              "under_a_proved_lemma": st.get("actions_under_a_proved_sim_lemma"),
                              "judged_migrations": st.get("judged_migrations"),
                              "migrations_proved_as_a_whole(C04_Sim_plan_proved_kinds)": st.get("migrations_fully_under_sim_lemmas"),
+                             "before_round5": {"under_a_proved_lemma": st.get("r3_actions_under_a_proved_sim_lemma"),
+                                               "migrations_proved_as_a_whole": st.get("r3_migrations_fully_under_sim_lemmas")},
+                             "DeleteColumn": {"actions": st.get("delete_column_actions"), "before": st.get("delete_column_r3"), "after": st.get("delete_column_now")},
+                             "RenameColumn": {"actions": st.get("rename_column_actions"), "before": st.get("rename_column_r3"), "after": st.get("rename_column_now")},
                              "pending_set_invariant": {"migrations_not_whole_by_Sim_plan": st.get("not_whole_by_Sim_plan"),
                                                        "of_which_proved_by_C04_SimP_plan_equiv": st.get("whole_by_SimP_plan_equiv"),
                                                        "of_which_only_by_C04_SimP_plan_checked": st.get("whole_by_SimP_plan_checked_only")},
-                             "proved_kinds": "all 13 action kinds under decidable hypotheses (sim_proved_for); not covered: the known-finding classes, and AddColumn with an inline constraint + its later AddConstraint"}}
+                             "proved_kinds": "all 13 action kinds under decidable hypotheses (sim_proved_for; sim_proved_for_r3 = the hypotheses before round 5); one-step lemmas do not cover: the known-finding classes, inputs outside A1-A7, the re-quoted default of ModifyColumnType (equal only up to norm_default), and AddColumn with an inline constraint + its later AddConstraint (covered as whole plans by the pending-set invariant)"}}
     chk.cov["not_judged"] = dict(skipped)
     # open findings: the stored witness must still fail on the implementation and be explained by its own class
     for k in [k for k in known if k.get("status") == "open"]:
         wname = "corpus:" + os.path.basename(k.get("witness", ""))
+        if k.get("observed_in") == "sql-text":
+            # no catalog symptom (the modelled catalog holds no comments): the class is confirmed on the implementation's SQL text
+            wit = [r for r in rows if r.get("tag") == wname and any(
+                "MODIFY COLUMN" in q and "COMMENT" not in q for a in r["result"].get("ok", []) for q in a)
+                and any(kind in ("ModifyColumnType", "ModifyColumnNullable", "ModifyColumnDefault") for kind in r.get("action_kinds", []))]
+            if wit and st.get("modify_comment_lost_confirmed_on_impl_sql", 0) > 0:
+                chk.known_finding(k["id"], k["what"])
+            elif not replaying:
+                chk.notes.append("NOTE stale known finding %s: its witness no longer shows a MODIFY COLUMN without COMMENT" % k["id"])
+            continue
         wit = [i for i, r in enumerate(rows) if r.get("tag") == wname and i in per.get(k["id"], [])]
         if wit or per.get(k["id"]):
             chk.known_finding(k["id"], k["what"])
